@@ -8,6 +8,8 @@ import (
 	"fmt"
 	"os"
 	"reflect"
+	"regexp"
+	"sort"
 	"strings"
 	"unicode/utf8"
 
@@ -157,6 +159,21 @@ type fmtResult struct {
 
 var schema *Schema
 
+// float texts every case may meet: the reserved strings and the numbers of the schema's default literals
+var baseTexts = []string{"NaN", "Infinity", "-Infinity"}
+
+func collectDefaultNumbers() {
+	re := regexp.MustCompile(`-?[0-9]+(\.[0-9]+)?([eE][+-]?[0-9]+)?`)
+	for _, n := range schema.Types {
+		for _, f := range n.Fields {
+			if f.DefaultValue != nil {
+				baseTexts = append(baseTexts, re.FindAllString(*f.DefaultValue, -1)...)
+			}
+		}
+	}
+	sort.Strings(baseTexts)
+}
+
 func allValidUtf8(v *Val) bool {
 	var ss []string
 	v.strings(&ss)
@@ -171,6 +188,7 @@ func allValidUtf8(v *Val) bool {
 func main() {
 	cfg := hx.ParseFlags()
 	schema = loadSchema(os.Getenv("VERIF_SCHEMA"))
+	collectDefaultNumbers()
 	mode := os.Getenv("VERIF_MODE")
 	switch mode {
 	case "c01":
@@ -321,7 +339,11 @@ func runRoundTrip(tname string, v *Val, note string, rep *hx.Report, sh *hx.Shar
 	if note == "" && nontrivial(v) {
 		rep.Sample(d)
 	}
-	sh.Add("{| c_ty := "+schema.coqTy(t)+"; c_val := "+v.Coq()+"; c_floats := "+coqFloats(fl)+"; c_excl := []; c_ignore := 0; c_obs := ["+strings.Join(obs, ";")+"] |}", d)
+	texts := append([]string{}, baseTexts...)
+	for _, f := range fl {
+		texts = append(texts, f.text)
+	}
+	sh.Add("{| c_ty := "+schema.coqTy(t)+"; c_val := "+v.Coq()+"; c_floats := "+coqFloats(fl)+"; c_parse := "+coqParseTable(texts)+"; c_excl := []; c_ignore := 0; c_obs := ["+strings.Join(obs, ";")+"] |}", d)
 }
 
 func (d caseDesc) withFormat(fr fmtResult) caseDesc {
